@@ -227,6 +227,42 @@ def gen_gets(rng, tier, ops):
         ops.append(mk_gets(line(L) + tail, dmax, prior=[rng.choice([0x51, 0, 0x41]) for _ in range(dmax + 8)],
                            objsize=rng.choice([dmax, dmax + 8]), tag="random"))
 
+
+def tm_of(t):
+    """libc's gmtime_r / localtime_r (TZ unset: UTC) as the 14 32-bit cells of glibc's struct tm; tm_zone cleared"""
+    import time as _t
+    g = _t.gmtime(t)
+    tm = dict(sec=g.tm_sec, min=g.tm_min, hour=g.tm_hour, mday=g.tm_mday, mon=g.tm_mon - 1, year=g.tm_year - 1900,
+              wday=(g.tm_wday + 1) % 7, yday=g.tm_yday - 1, isdst=0, gmtoff=0)
+    return tm_cells(tm)
+
+
+def mk_tmconv(fn, timer, prior=None, dnull=False, tnull=False, tag=""):
+    ok = 0 <= timer < 313360441200
+    dcells = list(prior) if prior is not None else [X] * 14
+    res = tm_of(timer) if ok else [0] * 14
+    regs = [Region(8, [timer & 0xFFFFFFFFFFFFFFFF]), Region(4, dcells), Region(4, res)]
+    W = [] if dnull else [(1, 0, 14)]
+    Rd = ([] if tnull else [(0, 0, 1)]) + [(2, 0, 14)]
+    meta = dict(fam="os", fn=fn, w=4, dest=None if dnull else (1, 0), dmax=14, bos=None, objsize=14, src=None if tnull else (0, 0),
+                timer=timer, tnull=tnull, res=res, prior=dcells, truthful=True, tag=tag)
+    return Op(fn, regs, ["null" if tnull else ptr(0), "null" if dnull else ptr(1), ptr(2), 1 if (ok and not tnull) else 0], W, Rd, meta)
+
+
+def gen_tmconv(rng, tier, ops):
+    for fn in ("gmtime_s", "localtime_s"):
+        for t in (0, 1, 59, 60, 86399, 86400, 951782399, 951782400, 2147483647, 2147483648, 4102444800, 253402300799, 253402300800,
+                  313360441199, 313360441200, 1 << 40, -1, -(1 << 62), (1 << 63) - 1):
+            ops.append(mk_tmconv(fn, t, tag="timer"))
+            ops.append(mk_tmconv(fn, t, prior=[0x51515151] * 14, tag="timer-dirty"))
+        ops.append(mk_tmconv(fn, 1000000000, dnull=True, tag="dnull"))
+        ops.append(mk_tmconv(fn, 1000000000, tnull=True, tag="tnull"))
+        ops.append(mk_tmconv(fn, 1000000000, dnull=True, tnull=True, tag="dnull+tnull"))
+        n = 60 if tier == "quick" else 3000
+        for _ in range(n):
+            ops.append(mk_tmconv(fn, rng.choice([rng.randint(0, 1 << 31), rng.randint(0, 313360441199), rng.randint(-5, 5)]),
+                                 prior=[rng.choice([0, 0x51515151])] * 14, tag="random"))
+
 ERRNUMS = list(range(400, 411)) + [0, 1, 2, 9, 12, 22, 34, 75, 84, 133, 134, 399, 411, 4095, -1, -400, 1 << 20]
 
 
@@ -270,6 +306,7 @@ def gen(rng, tier):
         ops.append(mk_strerror(e, LIMS + 1, prior=[0x51] * (LIMS + 100), bos=LIMS + 100, objsize=LIMS + 100, tag="limit+1-within-bos"))
     gen_time(rng, tier, ops)
     gen_gets(rng, tier, ops)
+    gen_tmconv(rng, tier, ops)
     n = 200 if tier == "quick" else 4000
     for _ in range(n):
         if rng.random() < 0.5:
@@ -296,6 +333,24 @@ def annotate(op):
                  violname="", ref=dict(count=len(m["msg"])))
         return
     m.update(hkind="S", retkind="e", producing=True, clears=False, slackdoc=(fn == "getenv_s"), limit=LIMS)
+    if fn in ("gmtime_s", "localtime_s"):
+        # doc comment: NULL "on error (which may be a runtime constraint violation or a failure to convert)"; errno EOVERFLOW
+        # when *timer is out of range, ESNULLP when dest or timer is a null pointer
+        m.update(producing=False, clears=False, slackdoc=False)
+        if m["dest"] is None:
+            viol.add(ESNULLP); names.append("dest-null")
+        if m["tnull"]:
+            viol.add(ESNULLP); names.append("timer-null")
+        elif m["dest"] is not None:
+            if m["timer"] < 0:
+                viol.add(EOVERFLOW); names.append("timer-min")
+            if m["timer"] >= 313360441200:
+                viol.add(EOVERFLOW); names.append("timer-max")
+        if not viol:
+            ref["cells"] = list(m["res"][:9])          # tm_sec .. tm_isdst; cell 9 is padding, tm_gmtoff is checked by the family oracle
+            ref["gmtoff"] = list(m["res"][10:12])
+        m.update(viol=viol, viol_opt=opt, violname="+".join(names), ref=ref)
+        return
     if fn == "gets_s":
         # doc comment: ESNULLP dest null, ESZEROL dmax = 0, ESLEMAX dmax > RSIZE_MAX_STR, EOVERFLOW dmax > size of dest,
         # ESNOSPC "endline or eof not encountered after storing dmax-1 characters"; "always writes the terminating null
@@ -439,6 +494,12 @@ def o_C06(op, ob, before):
     if m["fn"] == "strerrorlen_s":
         if ob.ret != str(ref["count"]):
             out.append(Fail("C06", "strerrorlen_s:wrong-length", "got %s want %d" % (ob.ret, ref["count"])))
+        return out
+    if m["fn"] in ("gmtime_s", "localtime_s"):
+        if "gmtoff" in ref and ob.reti() == 0 and m["dest"] is not None:
+            k, off = m["dest"]
+            if ob.img[k][off + 10:off + 12] != ref["gmtoff"]:
+                out.append(Fail("C06", "%s:wrong-gmtoff" % m["fn"], "got %s" % ob.img[k][off + 10:off + 12]))
         return out
     if m["fn"] == "getenv_s":
         if m["haslen"] and "len" in ref and ob.outs and ob.outs[0] != str(ref["len"]):
